@@ -41,6 +41,7 @@ type vfRunCfg struct {
 	timeout   bool // the DAG has a timeout (C05.timeout)
 	nilPolicy bool // also explore RetryPolicy == nil (otherwise Limit 0 stands for it)
 	metPre    bool // also explore a met precondition (otherwise "none" stands for it)
+	anyTurn   bool // commands may end at any yield point (one scheduling delay each), not only at quiescent points
 }
 
 var (
@@ -154,7 +155,13 @@ func (e *vfExec) Run() error {
 			vfAssert(vfOpenRuns(j) == 0, "C04.handlers/handler-starts-after-all-steps-ended")
 		}
 	}
-	vfWaitTurn("complete", e.idx, attempt)
+	if vfCfg.anyTurn {
+		// the command may end at any yield point of any thread (costs one scheduling delay), not
+		// only when everything else is quiescent
+		vfWaitTurn("anycomplete", e.idx, attempt)
+	} else {
+		vfWaitTurn("complete", e.idx, attempt)
+	}
 	fail := vfBool("fail")
 	if e.killed || (vfCfg.timeout && e.ctx.Err() != nil) {
 		fail = true // terminated by the stop signal / by the expired context
@@ -588,8 +595,9 @@ func VerifHarness_RUN_C15_n3() { vfRun(vfRunCfg{n: 3, mon: vfMonC15, retries: 1,
 func VerifHarness_RUN_C15_n4() { vfRun(vfRunCfg{n: 4, mon: vfMonC15, maxact: true}) }
 
 // C08: status snapshots persisted during the run.
-func VerifHarness_RUN_C08_n2() { vfRun(vfRunCfg{n: 2, mon: vfMonC08, retries: 1, preconds: true}) }
-func VerifHarness_RUN_C08_n3() { vfRun(vfRunCfg{n: 3, mon: vfMonC08, retries: 1, preconds: true}) }
+func VerifHarness_RUN_C08_n2()    { vfRun(vfRunCfg{n: 2, mon: vfMonC08, retries: 1, preconds: true}) }
+func VerifHarness_RUN_C08_n2any() { vfRun(vfRunCfg{n: 2, mon: vfMonC08, anyTurn: true}) }
+func VerifHarness_RUN_C08_n3()    { vfRun(vfRunCfg{n: 3, mon: vfMonC08, retries: 1, preconds: true}) }
 
 // C05.repeat: s0 repeats; a stop lets the current iteration finish and starts no further one.
 func VerifHarness_RUN_C05_rep() { vfRun(vfRunCfg{n: 2, mon: vfMonC05, stop: true, repeat: true}) }
@@ -598,3 +606,13 @@ func VerifHarness_RUN_C05_rep() { vfRun(vfRunCfg{n: 2, mon: vfMonC05, stop: true
 func VerifHarness_RUN_C05_timeout() {
 	vfRun(vfRunCfg{n: 2, mon: vfMonC05, retries: 1, timeout: true})
 }
+
+// "-any" variants: commands may end at any yield point of any thread (anyTurn), D=2.
+func VerifHarness_RUN_C01_n2any() { vfRun(vfRunCfg{n: 2, mon: vfMonC01, retries: 1, anyTurn: true}) }
+func VerifHarness_RUN_C02_n2any() { vfRun(vfRunCfg{n: 2, mon: vfMonC02, retries: 1, anyTurn: true}) }
+func VerifHarness_RUN_C03_n2any() { vfRun(vfRunCfg{n: 2, mon: vfMonC03, retries: 1, anyTurn: true}) }
+func VerifHarness_RUN_C04_n2any() {
+	vfRun(vfRunCfg{n: 2, mon: vfMonC04, handlers: true, anyTurn: true})
+}
+func VerifHarness_RUN_C05_n2any() { vfRun(vfRunCfg{n: 2, mon: vfMonC05, stop: true, anyTurn: true}) }
+func VerifHarness_RUN_C15_n2any() { vfRun(vfRunCfg{n: 2, mon: vfMonC15, maxact: true, anyTurn: true}) }
